@@ -206,6 +206,8 @@ class Tilt:
         self.mag: np.ndarray = mag
         self.representation: str = kwargs.get('representation', 'quaternion')
         self.as_angles: bool = kwargs.get('as_angles', self.representation == 'angles') # Old parameter. Backwards compatiblity.
+        if self.as_angles:
+            self.representation = 'angles'
         _assert_representation(self.representation)
         self.angles: np.ndarray = None
         if self.acc is not None:
